@@ -2,6 +2,8 @@ package main
 
 import (
 	"fmt"
+	"go/token"
+	"go/types"
 	"regexp"
 	"sort"
 	"strings"
@@ -318,6 +320,75 @@ func checkC40(c *Check) {
 			c.Ob("extras/timeout-only-lowered", "ClientImpl.fillRequestTimeout/SetCustomTimeoutMs", found, r.pos(cn.Pos), "the context-derived timeout replaces the caller's only under "+want)
 		})
 		c.Floor("extras/timeout-only-lowered", 1)
+	}
+	// ---- longpoll: what the request phase stores and the response phase needs must survive StartLongpoll → FinishLongpoll
+	{
+		structs := map[string]bool{"HandlerContext": true, "handlerContextFields": true}
+		named := func(names ...string) []*FuncInfo {
+			var out []*FuncInfo
+			for _, n := range names {
+				if fi := r.funcs[P+n]; fi != nil {
+					out = append(out, fi)
+				} else {
+					c.Undecided("anchor", P+n, "", "anchor function not found (renamed or removed)")
+				}
+			}
+			return out
+		}
+		reqPhase := named("HandlerContext.ParseInvokeReq", "HandlerContext.fillInvokeReqInternals")
+		respPhase := named("HandlerContext.prepareResponseBody", "HandlerContext.PrepareResponse", "HandlerContext.writeReponse", "writeResponseUnlocked", "serverConnTCP.SendResponse")
+		restore := named("serverConnTCP.finishLongpoll2", "UdpServerConn.finishLongpoll2")
+		written := map[string]bool{}
+		all := map[string]bool{}
+		var pkgTypes *types.Package
+		for _, fi := range reqPhase {
+			pkgTypes = fi.Pkg.Types
+		}
+		if pkgTypes != nil {
+			for _, f := range structFieldNames(pkgTypes, "HandlerContext") {
+				all[f] = true
+			}
+		}
+		for _, w := range fieldWriters(reqPhase, all) {
+			written[w.Field] = true
+		}
+		needed := map[string]token.Pos{}
+		for _, fi := range respPhase {
+			for k, p := range fieldReads(fi, structs) {
+				if _, ok := needed[k]; !ok {
+					needed[k] = p
+				}
+			}
+		}
+		embedded := map[string]bool{}
+		if pkgTypes != nil {
+			for _, f := range structFieldNames(pkgTypes, "handlerContextFields") {
+				embedded[f] = true
+			}
+		}
+		for _, fi := range restore {
+			restored := map[string]bool{}
+			for _, w := range fieldWriters([]*FuncInfo{fi}, map[string]bool{"HandlerContext.handlerContextFields": true}) {
+				_ = w
+				for f := range embedded {
+					restored[f] = true
+				}
+			}
+			for _, w := range fieldWriters([]*FuncInfo{fi}, all) {
+				restored[w.Field] = true
+			}
+			n := 0
+			for _, f := range sortedKeys(needed) {
+				if !written[f] {
+					continue
+				}
+				n++
+				c.Ob("extras/longpoll-carries-response-inputs", fi.Name()+"/"+f, restored[f], r.pos(fi.Decl.Pos()), fmt.Sprintf("%s is stored while parsing the request and read when the response is built (%s); the hctx handed out by FinishLongpoll must get it back (restored here: %v)", f, r.pos(needed[f]), restored[f]))
+			}
+			if n < 4 {
+				c.Ob("floor", "extras/longpoll-carries-response-inputs@"+fi.Name(), false, "", fmt.Sprintf("only %d fields are both written by the request phase and read by the response phase", n))
+			}
+		}
 	}
 	c.Floor("extras/who-may-write", 10)
 	c.Floor("extras/client-injection-keeps-caller-value", 2)
